@@ -700,6 +700,52 @@ def translate_eig3d(methods, fname):
     # scalar invariants (used for the statement of the Vieta hypotheses only)
     sc = Scalar({"I1_e_pg": ('s', 'I1'), "I2_e_pg": ('s', 'I2')}, fname)
     out["g"] = sc.ev(find_assign(body, "g_e_pg", fname).value)
+    # ---- case selection: it may depend on the tensor only through g_neq_0(g, normSq) and the Lode
+    #      argument arg = argnum(I1, I2, I3) / g**(3/2)  (scale invariance is proved on these) ----
+    a = find_assign(body, "g_neq_0", fname)
+    v = a.value
+    if isinstance(v, ast.Call) and ast.unparse(v.func) == "np.asarray" and len(v.args) == 1:
+        v = v.args[0]
+    if not (isinstance(v, ast.Compare) and len(v.ops) == 1 and isinstance(v.ops[0], (ast.Gt, ast.NotEq))):
+        raise TranslateError("%s:%d: g_neq_0 is not a single > or != comparison [%s]" % (fname, a.lineno, ast.unparse(a.value)))
+    names = {n.id for n in ast.walk(v) if isinstance(n, ast.Name)}
+    if "normSq_e_pg" in names:
+        b = find_assign(body, "normSq_e_pg", fname)
+        if _norm(ast.unparse(b.value)) != _norm("Trace(matrix_e_pg @ matrix_e_pg)"):
+            raise TranslateError("%s:%d: normSq_e_pg is not Trace(matrix_e_pg @ matrix_e_pg)" % (fname, b.lineno))
+    sc = Scalar({"g_e_pg": ('s', 'g'), "normSq_e_pg": ('s', 'n')}, fname)
+    out["g_neq_0"] = (">" if isinstance(v.ops[0], ast.Gt) else "<>", sc.ev(v.left), sc.ev(v.comparators[0]))
+    sc = Scalar({"I1_e_pg": ('s', 'I1'), "I2_e_pg": ('s', 'I2'), "I3_e_pg": ('s', 'I3')}, fname)
+    out["argnum"] = sc.ev(find_assign(body, "arg", fname).value)
+    found_div = False
+    for st in body:
+        if isinstance(st, ast.Expr) and isinstance(st.value, ast.Call) and ast.unparse(st.value.func) == "np.divide":
+            c = st.value
+            kws = {k.arg: _norm(ast.unparse(k.value)) for k in c.keywords}
+            if [_norm(ast.unparse(x)) for x in c.args] != [_norm("arg"), _norm("g_e_pg ** (3 / 2)")] or kws != {"out": "arg", "where": "g_neq_0"}:
+                raise TranslateError("%s:%d: the Lode argument is no longer arg / g_e_pg**(3/2) where g_neq_0" % (fname, st.lineno))
+            found_div = True
+    if not found_div:
+        raise TranslateError("%s: np.divide(arg, g_e_pg ** (3 / 2), out=arg, where=g_neq_0) not found" % fname)
+    allowed = {"theta": {"np", "arg"}, "case2": {"g_neq_0", "theta", "np", "tol_theta"}, "case3": {"g_neq_0", "theta", "np", "tol_theta"},
+               "case1": {"g_neq_0", "theta", "np", "tol_theta", "case2", "case3", "test1"},
+               "test1": {"g_neq_0", "theta", "np", "tol_theta"}, "test2": {"g_neq_0", "theta", "np", "tol_theta"}, "test3": {"g_neq_0", "theta", "np", "tol_theta"}}
+    for tgt, ok in allowed.items():
+        try:
+            b = find_assign(body, tgt, fname)
+        except TranslateError:
+            if tgt in ("theta", "case1"):
+                raise
+            continue
+        used = {n.id for n in ast.walk(b.value) if isinstance(n, ast.Name)}
+        if not used <= ok:
+            raise TranslateError("%s:%d: %s depends on %s (allowed: %s)" % (fname, b.lineno, tgt, sorted(used - ok), sorted(ok)))
+    for st in body:
+        if isinstance(st, ast.Assign) and ast.unparse(st.targets[0]) == "tol_theta" and not isinstance(st.value, ast.Constant):
+            raise TranslateError("%s:%d: tol_theta is not a constant" % (fname, st.lineno))
+        if isinstance(st, ast.Assign) and ast.unparse(st.targets[0]) == "arg" and st is not find_assign(body, "arg", fname):
+            if _norm(ast.unparse(st.value)) != _norm("np.clip(arg, -1, 1)"):
+                raise TranslateError("%s:%d: unexpected re-assignment of arg" % (fname, st.lineno))
     return out
 
 
@@ -930,6 +976,10 @@ def emit_coq(res):
     w("Definition e3_M2 (M1 M3 : A) : A := %s." % e["M2"])
     w("End Sylvester3.")
     w("Definition e3_g (I1 I2 : R) : R := %s." % sc_coq(e["g"]))
+    w("(* case selection of the 3-D routine: g_neq_0 as a function of g and n = Trace(A @ A); numerator of the")
+    w("   Lode argument arg = e3_argnum / g**(3/2); theta and the case masks depend on nothing else *)")
+    w("Definition e3_g_neq_0 (g n : R) : Prop := %s %s %s." % (sc_coq(e["g_neq_0"][1]), e["g_neq_0"][0], sc_coq(e["g_neq_0"][2])))
+    w("Definition e3_argnum (I1 I2 I3 : R) : R := %s." % sc_coq(e["argnum"]))
     w("")
     s = res["sources"]
     for k in ("r_AT1", "r_AT2", "f_AT1", "f_AT2"):
